@@ -67,7 +67,7 @@ def suites(rng, tier):
     lines = G.val_sampled(rng, n["samp"], 2, 12)
     out.append({"suite": "txval", "name": "txval-sampled", "lines": lines,
                 "distribution": {"kinds": len(G.KINDS), "len": "2..12(+intruders)", "lists": len(lines)}})
-    lines = [G.fl_tx(rng) for _ in range(n["fl"])]
+    lines = [G.fl_tx(rng) for _ in range(n["fl"])] + [G.fl_liq_inside(rng) for _ in range(80)]
     if tier != "search":
         lines += G.sim_enumerated("fl")
     out.append({"suite": "txsim", "name": "txsim-flashloan", "lines": lines,
